@@ -40,6 +40,54 @@ def mk_cond(c):
     return s
 
 
+@unit("C34", "Condition._garbage_collect", [(M, "_TimeoutGarbageCollector._garbage_collect")],
+      bounded="waiter queue length <= 4 with the state of each waiter symbolic, plus four queues of 103-104 waiters holding the 101 finished ones a sweep presupposes")
+def u_cond_gc(c):
+    """the sweep of timed-out waiters that Condition.wait's timeout triggers (every 101st expiry): afterwards the queue holds exactly the waiters that are still pending,
+    in arrival order - so notify(n) goes on waking the oldest ones; otherwise the queue is untouched"""
+    import collections
+    import tornado.locks as L
+    s = L.Condition.__new__(L.Condition)
+    layout = c.choose("queue", ["0", "1", "2", "3", "4", "live,101 finished,live", "101 finished,live,live", "live,live,101 finished", "live,50 finished,live,51 finished,live"])
+    due = c.choose("expiries-since-the-last-sweep", [100, 7])
+    if layout.isdigit():
+        n = int(layout)
+        ws = [H.pre_future(c, "w%d" % i) for i in range(n)]
+        for i in range(n):
+            for j in range(i + 1, n):
+                c.assume(Not(ws[i] == ws[j]) if c.symbolic else ws[i] is not ws[j])
+        live = None
+    else:
+        # a sweep happens after 101 expiries: queues that really hold that many finished waiters, with live ones before, between and after them (futures in known states)
+        ws, live = [], []
+        for part in layout.split(","):
+            for _ in range(1 if part == "live" else int(part.split()[0])):
+                f = H.new_future() if c.symbolic else H.heap(c).new()
+                if part != "live":
+                    f.set_exception(TimeoutError())
+                else:
+                    live.append(f)
+                ws.append(f)
+        n = len(ws)
+    s._waiters = collections.deque(ws)
+    s._timeouts = due
+    snap = H.HeapSnap(c)
+    out = c.call(c.fn(M, "_TimeoutGarbageCollector._garbage_collect"), s)
+    c.only_raises(out, ())
+    if out.raised:
+        return
+    c.cover("cond-gc/%s" % ("long" if live is not None else "short"))
+    now = list(s._waiters)
+    if due == 100:
+        keep = live if live is not None else [w for w in ws if snap.st_of(w) == PENDING]       # (forks on the symbolic states)
+        c.oblige("post/sweep-keeps-exactly-the-pending-waiters-in-arrival-order", len(now) == len(keep) and all(a is b for a, b in zip(now, keep)))
+        c.oblige("post/counter-reset", s._timeouts == 0)
+    else:
+        c.oblige("post/no-sweep-queue-unchanged", len(now) == n and all(a is b for a, b in zip(now, ws)))
+        c.oblige("post/counter-incremented", s._timeouts == due + 1)
+    c.oblige("frame/no-future-touched", H.heap_eq(c, snap), kind="frame")
+
+
 @unit("C34", "Condition.wait", [(M, "Condition.wait")])
 def u_wait(c):
     s = mk_cond(c)
